@@ -167,7 +167,8 @@ def evaluate__quantified_expressions(self: XPathToken, context: ta.ContextType =
     varnames = [cast(str, self[k][0].value) for k in range(0, len(self) - 1, 2)]
     selectors = [self[k].select for k in range(1, len(self) - 1, 2)]
 
-    for results in context.iter_product(selectors, varnames):
+    # the domains are iterated on a copy: the test has the focus of the whole expression
+    for results in copy(context).iter_product(selectors, varnames):
         context.variables.update(x for x in zip(varnames, results))
         if self.boolean_value(self[-1].select(copy(context))):
             if some:
